@@ -48,6 +48,8 @@ def coq_term(line):
             else:
                 ops.append("OpFull")
         return "run_cache %s [%s]" % (f[2], "; ".join(ops))
+    if f[0] == "F":
+        return "run_find %s %s" % (coq_bytes(f[2]), coq_bytes(f[3]))
     return None
 
 
@@ -80,7 +82,7 @@ def _run_one(args):
 
 def crosscheck(lines, model_out, coq_hash, seed, count):
     """lines: candidate case lines; model_out: id -> tokens from the extracted binary."""
-    cand = [ln for ln in lines if ln[:2] in ("P ", "K ") and len(ln) < 1500]
+    cand = [ln for ln in lines if ln[:2] in ("P ", "K ", "F ") and len(ln) < 1500]
     rng = random.Random("vm/%d" % seed)
     if len(cand) > count:
         cand = rng.sample(cand, count)
